@@ -254,9 +254,10 @@ async fn run_plan_async(pc: &PlanCase, fx: &Fixture) -> CaseResult {
     if !table_function_scans(&plan, &fx.tables).is_empty() {
         return CaseResult::discard("plan scans a table function (no provider codec for it)");
     }
-    let original = match exec_logical(&a.ctx, &plan).await {
-        Ok(x) => x,
-        Err(e) => return CaseResult::discard(format!("original plan fails to run: {:?}", err_class(&e))),
+    let original = match no_panic(exec_logical(&a.ctx, &plan)).await {
+        None => return CaseResult::discard("original plan panics while planning / running (outside this property)"),
+        Some(Ok(x)) => x,
+        Some(Err(e)) => return CaseResult::discard(format!("original plan fails to run: {:?}", err_class(&e))),
     };
     let kinds = logical_kinds(&plan);
     let mut known: Vec<&'static str> = vec![];
@@ -294,9 +295,15 @@ async fn run_plan_async(pc: &PlanCase, fx: &Fixture) -> CaseResult {
         }
         Ok(TreeNodeRecursion::Continue)
     });
+    // recorded finding `union-schema-not-encoded`: UnionNode carries only the inputs
+    let union_drift = union_schema_drift(&plan);
+    let schema_error = |e: &datafusion::error::DataFusionError| err_class(e) == ErrClass::SchemaError || ["SchemaError", "Schema error", "FieldNotFound", "No field named"].iter().any(|k| e.to_string().contains(k));
     let back = match decode_plan(&bytes, pc.wire, &b.ctx, if use_codec { Some(&codec_b) } else { None }) {
         Ok(p) => p,
-        Err(e) if schema_empty_rel && err_class(&e) == ErrClass::SchemaError => {
+        Err(e) if !schema_empty_rel && union_drift && schema_error(&e) => {
+            return known_violation(&["union-schema-not-encoded"], format!("plan encodes but does not decode: {}{}", err_text(&e), ctxt())).labels(labels);
+        }
+        Err(e) if schema_empty_rel && (err_class(&e) == ErrClass::SchemaError || ["SchemaError", "Schema error", "FieldNotFound", "No field named"].iter().any(|k| e.to_string().contains(k))) => {
             return known_violation(&["empty-relation-schema-dropped"], format!("plan encodes but does not decode: {}{}", err_text(&e), ctxt())).labels(labels);
         }
         Err(e) => return CaseResult::violation(format!("plan encodes but does not decode: {}{}", err_text(&e), ctxt())).labels(labels),
@@ -306,6 +313,9 @@ async fn run_plan_async(pc: &PlanCase, fx: &Fixture) -> CaseResult {
     if t0 != t1 {
         if schema_empty_rel {
             return known_violation(&["empty-relation-schema-dropped"], format!("decoded plan differs in its textual form: {}{}\n  decoded plan:\n{t1}", first_diff(&t0, &t1), ctxt())).labels(labels);
+        }
+        if union_drift {
+            return known_violation(&["union-schema-not-encoded"], format!("decoded plan differs in its textual form: {}{}\n  decoded plan:\n{t1}", first_diff(&t0, &t1), ctxt())).labels(labels);
         }
         // recorded finding `limit-fetch-none-decoded-as-max`: `fetch=None` travels as i64::MAX and comes back as Some(i64::MAX)
         let mut t1n = t1.clone();
@@ -497,6 +507,16 @@ fn exotic_child(dt: &DType, top: bool) -> bool {
     }
 }
 
+fn has_float(v: &data::Value) -> bool {
+    match v {
+        data::Value::Float(_) => true,
+        data::Value::List(vs) | data::Value::Struct(vs) => vs.iter().any(has_float),
+        data::Value::Map(kv) => kv.iter().any(|(k, v)| has_float(k) || has_float(v)),
+        data::Value::Union(_, b) => has_float(b),
+        _ => false,
+    }
+}
+
 fn nonfinite_float(v: &data::Value) -> bool {
     match v {
         data::Value::Float(f) => !f.is_finite(),
@@ -545,7 +565,7 @@ fn run_scalar(sc: &ScalarCase) -> CaseResult {
         Ok(l) => labels.push(l.into()),
         Err(m) => {
             let (t0, t1) = (sv.data_type().to_string(), back.data_type().to_string());
-            if t0 != t1 && t0.replace("Float16", "Float32") == t1 {
+            if (t0 != t1 && t0.replace("Float16", "Float32") == t1) || (format!("{sv:?}") != format!("{back:?}") && format!("{sv:?}").replace("Float16(", "Float32(") == format!("{back:?}")) {
                 return known_violation(&["float16-scalar-as-float32"], format!("scalar round trip (binary): {m}")).labels(labels);
             }
             return CaseResult::violation(format!("scalar round trip (binary): {m}")).labels(labels);
@@ -566,6 +586,11 @@ fn run_scalar(sc: &ScalarCase) -> CaseResult {
                 Err(e) => return CaseResult::violation(format!("scalar does not decode from its JSON form: {e}; scalar {}", describe())).labels(labels),
             };
             if let Err(m) = scalar_same(&sv, &back) {
+                // the binary form round-trips (checked above): a float that comes back different from JSON is the
+                // text parser's last-bit inexactness (recorded finding `json-float-not-exact`)
+                if has_float(&sc.value) && sv.data_type() == back.data_type() {
+                    return known_violation(&["json-float-not-exact"], format!("scalar round trip (JSON): {m}")).labels(labels);
+                }
                 return CaseResult::violation(format!("scalar round trip (JSON): {m}")).labels(labels);
             }
         }
@@ -625,7 +650,7 @@ impl Property for C35 {
         .boxed()
     }
     fn budget(&self, tier: Tier) -> Budget {
-        Budget::new(tier.pick(10_000, 600_000), tier.pick(8, 16)).min_nontrivial(tier.pick(1_000, 50_000)).case_timeout(120).shrink(600, 60)
+        Budget::new(tier.pick(8_000, 600_000), tier.pick(8, 16)).min_nontrivial(tier.pick(1_000, 50_000)).case_timeout(120).shrink(600, 60)
     }
     fn rule(&self) -> String {
         "plan cases: refsql query (C01 grammar, deterministic) over 3 tables as MemTables (name codec) or Parquet/CSV listing tables (default codec), analyzed or optimized plan, binary or JSON wire; \
